@@ -16,7 +16,7 @@ TRUSTED = [
     "request theorems: Valve, Quake, Unreal 2 (and C04 for the GameSpy 3 challenge); GameSpy, the Minecraft handshake and the default ports of the definitions table are covered by the request oracle on the implementation and by model = implementation",
 ]
 RULE = ("every case compares the full send log of model and implementation; valid Spec-generated exchanges with 0-3 challenge rounds per request and stratified challenge bytes "
-        "{00,0a,41,5c,ff,fe,01,80}^4 plus random, all engines, ports 27015-27019, plus mutated scripts; Quake, Unreal 2, GameSpy 1/2/3 requests and GameSpy 3 challenges (0, negatives, i32 extremes); every UDP game of the definitions table through the generic entry point with the port given / omitted, and through its own module with the port omitted (both must use the same default port); the Minecraft Java handshake with host name / protocol version settings; the request oracle walks the observed trace against the script; "
+        "{00,0a,41,5c,ff,fe,01,80}^4 plus random, all engines, ports 27015-27019, plus mutated scripts; Quake, Unreal 2, GameSpy 1/2/3 requests and GameSpy 3 challenges (0, negatives, i32 extremes); every UDP game of the definitions table through the generic entry point with the port given / omitted, and through its own module with the port omitted (both must use the same default port); the Minecraft Java handshake with host name / protocol version settings; the requests of every attempt after a lost datagram or a failed send (GameSpy 1/2/3, JC2-MP, Mindustry, Bedrock, retries 1..3); the request oracle walks the observed trace against the script; "
         "non-trivial = at least one challenge was echoed; distinct by case bytes")
 
 
@@ -92,6 +92,13 @@ def gen_cases(tier, rng):
             cases.append({"id": "modport/%s" % g["id"], "hex": C14.paths_case(g["id"], module, None, {"retries": 0}, []),
                           "meta": {"stream": "module-default-port", "game": g["id"], "events": [], "tags": {}}})
     cases += minecraft_extra_cases(tier, rng, r)
+    # the requests of an attempt that follows a lost datagram or a failed send (retries 1..3): every attempt sends the same
+    # requests as the first one, whatever went wrong before
+    import C10
+    for c in C10.whole_exchange_rows(tier, rng.fork("after-fault")):
+        if c["meta"]["r"] >= 1 and len(c["meta"]["vec"]) >= 2:
+            c["meta"] = {"stream": "requests-after-a-fault", "proto": c["meta"]["stream"].split("-")[0], "events": [], "tags": {}, "vec": c["meta"]["vec"]}
+            cases.append(c)
     return cases
 
 
@@ -169,6 +176,21 @@ def oracle(case, impl, side):
         if "paths=DIFF" in side and "d!=" in side:
             return ("default-port:" + case["meta"]["game"],
                     "game %s with the port omitted: its module and its definition do not send the same requests to the same port: %s" % (case["meta"]["game"], side[:300]))
+        return None
+    if case["meta"]["stream"] == "requests-after-a-fault":
+        res, trace = split_result(impl)
+        sends = [t[1:].partition(":")[2] for t in (trace or "").split(";") if t.startswith("S")]
+        proto = case["meta"]["proto"]
+        if proto in ("gs3", "jc2m"):
+            for d in sends:
+                if d.startswith("fefd09") and d != "fefd0900000001":
+                    return ("request-after-fault:" + proto, "%s after faults %s: a handshake %s, the protocol's handshake is fefd0900000001" % (proto, case["meta"]["vec"], d[:40]))
+                if d.startswith("fefd00") and not d.startswith("fefd0000000001"):
+                    return ("request-after-fault:" + proto, "%s after faults %s: a data request %s does not carry session id 1" % (proto, case["meta"]["vec"], d[:40]))
+                if not d.startswith("fefd"):
+                    return ("request-after-fault:" + proto, "%s after faults %s: a datagram %s that is not a request of the protocol" % (proto, case["meta"]["vec"], d[:40]))
+        elif sends and any(d != sends[0] for d in sends):
+            return ("request-after-fault:" + proto, "%s after faults %s: the attempts do not send the same request: %s" % (proto, case["meta"]["vec"], sorted(set(sends))[:3]))
         return None
     if "dest" in case["meta"]:
         res, trace = split_result(impl)
